@@ -146,6 +146,18 @@ def programs(tier):
             nodes += [T.route("pick", [prev], ["ta", "tb"], wait_for=["tick"], default_open=do), T.fn("ta", [prev], ["ra"]), T.fn("tb", [prev], ["rb"])]
             yield (f"waiting-gate-held-behind-its-producer-{'open' if do else 'closed'}-{chain}", T.prog(nodes), {"n": 0, "seed": ["prov", "seed"]}, dict(dag=False, exact=False, horizon=H_))
     yield ("nested-gate-inside", T.prog([T.gnode("inner", inner), T.fn("sib", ["e0"], ["sb"])]), e, dict(dag=True, exact=True, horizon=8))
+    # ... the nested graph mounted under another name with RENAMED branch outputs, each consumed by an outer node: a branch the inner
+    # gate did not select contributes no value (not even None) outside, and its outer consumer never starts
+    for kind in ("route2END", "ifelse2"):
+        for do in (False, True):
+            inn, _ = g1_program(kind, do, "e0", "e0")
+            inn["name"] = "inner_flow"
+            yield (
+                f"nested-gate-renamed-branch-outputs-{kind}-{'open' if do else 'closed'}",
+                T.prog([T.gnode("mounted", inn, rename_out={"x_p": "px", "x_pq": "qx"}), T.fn("usep", ["px"], ["up"]), T.fn("useq", ["qx"], ["uq"]), T.fn("sib", ["e0"], ["sb"])]),
+                e,
+                dict(dag=True, exact=not do, horizon=8),
+            )
     inner2 = T.prog([T.fn("w1", ["e0"], ["w0"])], name="inner2")
     yield ("gate-to-graphnode", T.prog([T.route("gt", ["e0"], ["inner2", "oth"], default_open=False), T.gnode("inner2", inner2), T.fn("oth", ["e0"], ["o0"])]), e, dict(dag=True, exact=True, horizon=8))
 
@@ -319,6 +331,22 @@ def gate_violations(prog, x, meta):
                 for o in s.get("outs", []):
                     if o in vals and o not in x.h_inputs:
                         out.append(({"symptom": "output-of-node-that-never-ran"}, f"value {o} present although {s['id']} never started"))
+        # ... also through a nested graph node (and its output renames): an inner node that never started in any run contributes
+        # nothing outside, and an outer node fed only by such a value never starts
+        for s in prog["nodes"]:
+            if s["kind"] != "graph":
+                continue
+            ro = s.get("rename_out") or {}
+            ever = {nid for (_, nid) in started}
+            for isp in s["inner"]["nodes"]:
+                if isp["kind"] == "fn" and isp["id"] not in ever:
+                    for o in isp.get("outs", []):
+                        ext = ro.get(o, o)
+                        if ext in vals and ext not in x.h_inputs:
+                            out.append(({"symptom": "output-of-node-that-never-ran", "nested": True}, f"value {ext} present (= {jsonable(vals[ext])}) although the inner node {isp['id']} never started"))
+                        for c in prog["nodes"]:
+                            if c["kind"] == "fn" and c.get("params") == [ext] and c["id"] in ever:
+                                out.append(({"symptom": "consumer-of-unselected-branch-ran", "nested": True}, f"{c['id']} started although its only input {ext} comes from the inner node {isp['id']}, which never started"))
         if meta["dag"] and meta["exact"] and not invalid and x.result.status.value == "completed" and not x.pruned:
             # exactly the selected branches executed
             for level, ctrl in _levels(prog):
